@@ -31,6 +31,7 @@ def check(run):
     ]
     R = dataflow(P, run.tier)
     ok, bad = emit(run, R, {"GLOBAL/write"}, where_filter=lambda f: f.func.module.relpath not in CONFIG_SETTERS)
+    emit(run, R, {"GRIDBUF/write"})
     # `global X` rebinding outside the configuration setters
     import ast
     n_glob = 0
